@@ -4,6 +4,14 @@ import json, os
 ROOT = os.path.dirname(os.path.dirname(os.path.abspath(__file__)))
 
 CHECKS = {
+ 'C01': dict(level='translation_validation', design='DESIGN.md §5 C01',
+   technique='CrossHair symbolic execution of parse_script+execute_script per generated program, differential against a big-step reference interpreter over symbolic oracle bits, array lengths and condition values (z3 decides each path)',
+   text='Each generated structured program (nesting shapes of the seven constructs with break/continue flavours, global and function scope, multi-function scripts, conditions of all nine value types) is lowered by the real parser and run by the real interpreter under CrossHair with every condition outcome, array length and condition value symbolic; a confirmed condition means return value, effect trace and final globals equal the big-step reading for ALL such inputs within the oracle bound. Shapes where `continue` binds to `while` are additionally checked against a model of known finding F7 so that any other divergence still alarms.',
+   note='Trusted: the reference interpreter vf/gen/skel.py, CrossHair models, z3. Bounds: oracle draws <= 5 (quick) / 8 (thorough), arrays <= 2 elements, depth <= 2 (+ sampled depth 3 in thorough).'),
+ 'C07': dict(level='exploration', design='DESIGN.md §5 C07',
+   technique='CrossHair symbolic execution decides "never raises Unknown jump label for any input" per generated shape; static label/schema/lint facts evaluated concretely on every enumerated shape (no solver input exists for them)',
+   text='The consequence clause (structured code can never raise "Unknown jump label", whatever the condition outcomes and array lengths) is decided per shape by CrossHair/z3 over symbolic inputs. The static clauses (schema-valid, labels unique per scope, every jump targets a label of its own list, every label targeted, no label lint warnings) depend on the program shape only and are evaluated concretely over every nesting shape to depth 3 in both scopes plus multi-function scripts; the evidence says which part is which.',
+   note='Trusted: schema-markdown validation, CrossHair, z3. Static part is exhaustive enumeration of the stated shape set, not a solver verdict.'),
  'C09': dict(level='exploration', design='DESIGN.md §5 C09',
    technique='CrossHair symbolic execution of execute_script (z3 decides every path) with maxStatements as an unbounded symbolic int; differential against an independent reference machine',
    text='Per program of a suite covering every counting path (loops, recursion, sort/indexOf/partial callbacks, data-expression callbacks, nested includes, include inside a function, empty functions, non-terminating loops/includes) CrossHair executes the real interpreter with the limit as a symbolic integer and z3 exhausts all paths: confirmed means the exact/complete/monotone budget contract holds for EVERY integer limit on that program; counterexamples are replayed natively before being reported.',
